@@ -748,6 +748,14 @@ class BaseConnector:
                 if traces:
                     for trace in traces:
                         await trace.send_connection_queued_end()
+            except BaseException:
+                if fut.done() and not fut.cancelled():
+                    # We were handed the free slot but are not going to use it
+                    # (cancelled before we got to run): hand it to the next
+                    # waiter, otherwise it waits for ever with capacity free.
+                    keyed_waiters.pop(fut, None)
+                    self._release_waiter()
+                raise
             finally:
                 # pop the waiter from the queue if its still
                 # there and not already removed by _release_waiter
